@@ -10,6 +10,19 @@ CLAIMED = {
    "Generated-input search (rapid) over arbitrary bytes, token sequences, mutated valid programs, malformed strings/numbers and deep nesting, plus native coverage-guided fuzzing in the thorough tier; every input is judged by the explicit C05 oracle (tree xor positioned diagnostic, independent Ln/Col computation, no internal recover, lexer covering invariant). Finds crashes/hangs/position errors on inputs tests never sample; does not prove absence.",
    "Trusted: Go toolchain, rapid. Inputs bounded to 4 KiB (fuzz) / nesting depth 2000. A hang surfaces as the go test timeout (exit 2, inconclusive) with the heartbeat input saved.",
    "property-based testing (rapid) + coverage-guided fuzzing (go test -fuzz) against a validity oracle"),
+
+ "C06": ("exploration",
+   "Round-trip property over generated syntax trees: exhaustive operator-pair table (every ordered pair of 14 binary operators, both nestings, unary combinations) plus random statement/expression trees printed with only the parentheses the precedence table requires, under random admissible layouts and with redundant parentheses; the parsed tree must equal the generated one. Reaches every operator pairing and layout position, which the hand-written parser tests sample sparsely.",
+   "Trusted: the harness printer/converter (self-consistent by construction: a printer bug shows up as a violation on the unchanged tree), the precedence rows for `in` and unary operators taken from gram.y because the reference omits them. Depth <= 5, <= 6 statements per program.",
+   "property-based round-trip testing (print -> parse -> compare) with rapid, plus exhaustive enumeration of the operator-pair table"),
+ "C07": ("exploration",
+   "Exhaustive enumeration of all literal bodies up to length 5 (quick) / 6 (thorough) over a 12-character hostile alphabet in the five quoting forms, random escape-fragment spellings, value round trips through four independent encoders, integer boundaries at every power of two/ten, random float64 bit patterns, all keyword case patterns; judged by a reference decoder written from Go's escape rules that is itself cross-checked against strconv.Unquote.",
+   "Trusted: strconv.ParseFloat/Unquote as the numeric/escape reference. Weak oracle (rejected or exact) where the reference does not define the form (quotes inside triple-quoted bodies, raw NUL, empty back-quoted identifier).",
+   "exhaustive bounded enumeration + property-based testing (rapid) against a reference decoder; native fuzzing of literal bodies in the thorough tier"),
+ "C17": ("exploration",
+   "Tree positions: every position field of trees parsed from generated programs (token offsets known to the printer) under multi-byte/CRLF/comment layouts; error positions: a (fault x wrapper) table and random nestings of injected load-time and run-time faults, each error position must lie inside the faulty statement and have consistent Ln/Col; lookup routines: exhaustive over all texts of length <= 7 over {a, LF, é} x all offsets; error chains: rendering, JSON round trip, copy isolation for random chains of 1..4 positions.",
+   "Trusted: the harness printer's offsets. Whether a fault must be reported at all is left to C02/C04/C08/C11; C17 checks where it is reported.",
+   "property-based testing with a position-recording printer as oracle; exhaustive enumeration for the lookup routines"),
 }
 PENDING_REASON = "check not built yet at this commit (work in progress; see DESIGN.md section 4 for the planned PBT design)"
 
